@@ -179,20 +179,24 @@ Inductive op :=
 | OMemBegin (m : nat)                         (* initClusterID whose transaction is parked *)
 | OMemFinish (m : nat) (o : outcome)
 | OCall (name : string) (h : option Z)        (* handler `name` called with an otherwise empty request and header h *)
-| OStream (name : string) (hs : list (option Z)).  (* ONE stream of the streaming handler `name` carrying the messages with headers hs *)
+| OStream (name : string) (hs : list (option Z))
+| OPutConfig (body : option (Z * Z))         (* PutClusterConfig, correct header; body = None: no cluster message at all,
+                                                Some (id, max_peer_count): the metapb.Cluster it carries (unset fields are 0) *)
+| OGetConfig.                                (* GetClusterConfig *)  (* ONE stream of the streaming handler `name` carrying the messages with headers hs *)
 
 Inductive obs :=
-| BOk | BAlready | BInvalid (k : invalid) | BConflict | BEtcdErr | BMismatch | BStartErr
+| BOk | BAlready | BInvalid (k : invalid) | BConflict | BEtcdErr | BMismatch | BStartErr | BInvalidCfg
 | BStarted | BBool (b : bool) | BUnit
 | BId (k : nat)            (* cluster id, renamed by order of first appearance *)
 | BAccepted | BNotBoot | BBad
-| BStream (answers : list obs).   (* per message of a stream, until the handler returned *)
+| BStream (answers : list obs)
+| BCfg (own_id : bool) (max_peers : Z).   (* the cluster meta served: does it carry the cluster's id; its max_peer_count *)   (* per message of a stream, until the handler returned *)
 
 (* what the driver reads from etcd after every operation *)
 Record view := View { v_root : bool; v_time : bool; v_stores : list Z; v_regions : list Z; v_cid : option nat }.
 
 (* run state: model state, next candidate number, ids seen so far (for renaming) *)
-Record rstate := R { rs : state; next_c : Z; seen : list Z }.
+Record rstate := R { rs : state; next_c : Z; seen : list Z; cfg : Z (* max_peer_count of the stored cluster meta *) }.
 
 Fixpoint index_of (x : Z) (l : list Z) (n : nat) : option nat :=
   match l with [] => None | y :: r => if x =? y then Some n else index_of x r (S n) end.
@@ -203,7 +207,8 @@ Definition rename (sn : list Z) (v : Z) : list Z * nat :=
 Definition hid_of (h : option Z) : Z := match h with Some z => z | None => 0 end.
 
 Definition the_cid : Z := 7.    (* the serving member's cluster id in the wrapper; requests carry 7 or something else *)
-Definition rinit : rstate := R (init the_cid) 100 [].
+Definition default_max_peers : Z := 3.   (* config default max-replicas, written by bootstrapCluster *)
+Definition rinit : rstate := R (init the_cid) 100 [] default_max_peers.
 
 Definition exempt (h : string) : bool :=
   existsb (String.eqb h) ["GetMembers"; "SyncMaxTS"; "GetDCLocationInfo"].
@@ -274,15 +279,27 @@ Definition mem_finish (r : rstate) (m : nat) (o : outcome) : rstate * obs :=
   | Some s1 =>
       match o with
       | Ok => match mids s1 m with
-              | Some v => let '(sn, k) := rename (seen r) v in (R s1 (next_c r + 1) sn, BId k)
-              | None => (R s1 (next_c r + 1) (seen r), BBad)
+              | Some v => let '(sn, k) := rename (seen r) v in (R s1 (next_c r + 1) sn (cfg r), BId k)
+              | None => (R s1 (next_c r + 1) (seen r) (cfg r), BBad)
               end
-      | _ => (R s1 (next_c r + 1) (seen r), BEtcdErr)
+      | _ => (R s1 (next_c r + 1) (seen r) (cfg r), BEtcdErr)
       end
   end.
 
+(* a bootstrap transaction that gets applied writes the cluster meta with the default max_peer_count *)
 Definition lift (r : rstate) (x : option (state * obs)) : rstate * obs :=
-  match x with Some (s, b) => (R s (next_c r) (seen r), b) | None => (r, BBad) end.
+  match x with
+  | Some (s, b) =>
+      (R s (next_c r) (seen r) (if negb (is_some (root (e (rs r)))) && is_some (root (e s)) then default_max_peers else cfg r), b)
+  | None => (r, BBad)
+  end.
+
+(* RaftCluster.PutConfig: the body must carry the cluster's id (a missing body or field reads as 0) *)
+Definition put_config (c : Z) (body : option (Z * Z)) : option Z :=
+  match body with
+  | Some (id, mp) => if id =? c then Some mp else None
+  | None => None
+  end.
 
 Definition run_op1 (r : rstate) (o : op) : rstate * obs :=
   let s := rs r in
@@ -304,16 +321,23 @@ Definition run_op1 (r : rstate) (o : op) : rstate * obs :=
       | Some s1 =>
           if mpend s1 m then
             match o with
-            | OMemBegin _ => (R s1 (next_c r) (seen r), BStarted)
-            | _ => mem_finish (R s1 (next_c r) (seen r)) m Ok
+            | OMemBegin _ => (R s1 (next_c r) (seen r) (cfg r), BStarted)
+            | _ => mem_finish (R s1 (next_c r) (seen r) (cfg r)) m Ok
             end
           else match mids s1 m with
-               | Some v => let '(sn, k) := rename (seen r) v in (R s1 (next_c r) sn, BId k)
+               | Some v => let '(sn, k) := rename (seen r) v in (R s1 (next_c r) sn (cfg r), BId k)
                | None => (r, BBad)
                end
       end
   | OMemFinish m oc => mem_finish r m oc
   | OStream name hs => (r, BStream (stream_run name (running s) (scid s) hs))
+  | OPutConfig body =>
+      if negb (running s) then (r, BNotBoot)
+      else match put_config (scid s) body with
+           | Some mp => (R s (next_c r) (seen r) mp, BUnit)
+           | None => (r, BInvalidCfg)
+           end
+  | OGetConfig => (r, if running s then BCfg true (cfg r) else BNotBoot)
   | OCall name h =>
       (r, if exempt name then BAccepted
           else if String.eqb name "RegionHeartbeat" && negb (running s) then BNotBoot  (* answers NOT_BOOTSTRAPPED before it validates *)
@@ -331,7 +355,7 @@ Definition view_of (r : rstate) : view :=
 Definition run_op (r : rstate) (o : op) : rstate * (obs * view) :=
   let '(r1, b) := run_op1 r o in
   let r2 := match cid (e (rs r1)) with
-            | Some v => R (rs r1) (next_c r1) (fst (rename (seen r1) v))
+            | Some v => R (rs r1) (next_c r1) (fst (rename (seen r1) v)) (cfg r1)
             | None => r1
             end in
   (r2, (b, view_of r2)).
@@ -345,11 +369,12 @@ Definition invalid_eqb (a b : invalid) : bool :=
   end.
 Fixpoint obs_eqb (a b : obs) : bool :=
   match a, b with
-  | BOk, BOk | BAlready, BAlready | BConflict, BConflict | BEtcdErr, BEtcdErr | BMismatch, BMismatch | BStartErr, BStartErr
+  | BOk, BOk | BAlready, BAlready | BConflict, BConflict | BEtcdErr, BEtcdErr | BMismatch, BMismatch | BStartErr, BStartErr | BInvalidCfg, BInvalidCfg
   | BStarted, BStarted | BUnit, BUnit | BAccepted, BAccepted | BNotBoot, BNotBoot | BBad, BBad => true
   | BInvalid x, BInvalid y => invalid_eqb x y
   | BBool x, BBool y => Bool.eqb x y
   | BId x, BId y => Nat.eqb x y
+  | BCfg a x, BCfg b y => Bool.eqb a b && (x =? y)
   | BStream x, BStream y =>
       (fix go (l1 l2 : list obs) : bool :=
          match l1, l2 with
@@ -400,7 +425,7 @@ Definition payload_of_op (o : op) : option payload :=
   match o with OBoot _ _ p | OBegin _ _ p => Some p | _ => None end.
 
 (* walk the trace: oks = payloads of the requests answered OK; pend = payloads of parked requests *)
-Fixpoint mon (prev : view) (oks : list payload) (pend : list (nat * payload)) (ids : list nat)
+Fixpoint mon (must_run : bool) (prev : view) (oks : list payload) (pend : list (nat * payload)) (ids : list nat)
              (ops : list op) (obl : list (obs * view)) : option string :=
   match ops, obl with
   | o :: r, (b, v) :: br =>
@@ -416,8 +441,25 @@ Fixpoint mon (prev : view) (oks : list payload) (pend : list (nat * payload)) (i
                  end in
       let oks1 := match won with Some p => p :: oks | None => oks end in
       let ids1 := match b with BId k => k :: ids | _ => ids end in
+      (* after a reload a cluster whose record is stored is running again, until it is stopped *)
+      let must1 := match o with
+                   | OReload => v_root v
+                   | OStop => false
+                   | _ => must_run || match b with BOk => true | _ => false end
+                   end in
+      (* 0. one identity: the cluster meta that is stored and served carries the cluster's id, whatever PutClusterConfig
+            is sent; a stored record means the cluster comes up again after a reload *)
+      if match o, b with
+         | OPutConfig body, BUnit => negb (is_some (put_config the_cid body))
+         | _, _ => false
+         end then Some "C20:cluster-config-with-foreign-id-accepted"
+      else if match b with BCfg false _ => true | _ => false end then Some "C20:cluster-identity-overwritten"
+      else if match o, b with
+              | OIsBoot, BBool false | OGetConfig, BNotBoot | OPutConfig _, BNotBoot => must_run
+              | _, _ => false
+              end then Some "C20:bootstrap-state-lost-after-reload"
       (* 1. at most one request is answered OK *)
-      if (1 <? Z.of_nat (List.length oks1))%Z then Some "C20:bootstrapped-twice"
+      else if (1 <? Z.of_nat (List.length oks1))%Z then Some "C20:bootstrapped-twice"
       (* 2. what is stored comes from the one acknowledged request *)
       else if match oks1 with
               | [p] => negb (v_root v && v_time v && list_eqb Z.eqb (v_stores v) [store_of p] && list_eqb Z.eqb (v_regions v) [region_of p])
@@ -469,12 +511,12 @@ Fixpoint mon (prev : view) (oks : list payload) (pend : list (nat * payload)) (i
       then Some "C20:cluster-id-changed"
       else if match o, b with OMemInit _, BEtcdErr | OMemInit _, BBad | OMemFinish _ Ok, BEtcdErr | OMemFinish _ Ok, BBad => true | _, _ => false end
       then Some "C20:cluster-id-init-failed-without-fault"
-      else mon v oks1 pend1 ids1 r br
+      else mon must1 v oks1 pend1 ids1 r br
   | _, _ => None
   end.
 
 Definition monitor (c : case) : option string :=
-  mon (View false false [] [] None) [] [] [] (fst c) (snd c).
+  mon false (View false false [] [] None) [] [] [] (fst c) (snd c).
 
 Fixpoint monitor_fails_from (n : nat) (cs : list case) : list (nat * string) :=
   match cs with
